@@ -6,7 +6,8 @@ Line handler of the C29 driver.  `c29 <readonly 0|1> <reserved> <history ops…>
 the history (protocol of ImmDrv) builds a server state; the test op is then expanded to its
 primitive file operations and, for every crash index n = 0..len, the final-directory files after
 crash + restart are printed.  Test ops: `A:…` (allocate_buckets, as in ImmDrv), `W:wid:off:hex`,
-`C:wid`, `X:wid`, `AL:si:rechex:free:order` (StorageServer.add_lease over the listdir order).
+`C:wid`, `X:wid`, `AL:si:rechex:free:order` (StorageServer.add_lease over the listdir order),
+`RL:si:rechex:order` (StorageServer.renew_lease).
 Output: `ops=<op;op;…>|<dump n=0>|<dump n=1>|…` (dump = `F.si.sh=hex,…`).
 -/
 namespace Tahoe.Storage.CrashDrv
@@ -43,6 +44,21 @@ def leaseSOps (s : Server) (si : Nat) (rec : Bytes) (avail : Nat) : List Nat →
         | .ok _ => let r := leaseSOps s si rec avail rest; (SOp.lease (si, sh) rec avail :: r.1, r.2)
         | _ => ([], false)
 
+/-- `StorageServer.renew_lease(si, renew_secret)`: `ShareFile.renew_lease` on every share in listdir
+    order; stops at the first `IndexError` (no lease with that renew secret on a share) -/
+def renewSOps (s : Server) (si : Nat) (rec : Bytes) : List Nat → List SOp
+  | [] => []
+  | sh :: rest =>
+    match getK (si, sh) s.final with
+    | none => renewSOps s si rec rest
+    | some f =>
+      match openLeaseOffset f with
+      | none => renewSOps s si rec rest
+      | some lo =>
+        match renewLease lo f rec with
+        | some _ => SOp.lease (si, sh) rec 0 :: renewSOps s si rec rest
+        | none => []
+
 def lastOfSi (s : Server) (k : Key) : Bool :=
   !(s.incoming.any (fun e => e.1.1 == k.1 && e.1.2 != k.2))
 
@@ -65,6 +81,8 @@ def sopsOf (s : Server) (op : String) : Option (List SOp) :=
   | ["AL", si, rec, free, order] => do
     let si ← si.toNat?
     pure (leaseSOps s si (← bytesOfHex rec) (availableSpace s (← free.toNat?)) (← parseNatList order)).1
+  | ["RL", si, rec, order] => do
+    pure (renewSOps s (← si.toNat?) (← bytesOfHex rec) (← parseNatList order))
   | ["W", wid, off, d] => do
     let wid ← wid.toNat?
     let off ← off.toNat?
@@ -92,6 +110,19 @@ def splitBang : List String → List String → Option (List String × List Stri
 def dedupKeys (l : List Key) : List Key := l.foldr (fun k acc => if acc.contains k then acc else k :: acc) []
 
 def handle : List String → String
+  | ["c29m", fhex, rechex] =>
+    -- mutable container `fhex`, extra-lease append of the 92-byte record `rechex`: the primitive writes,
+    -- and for every crash index whether the leases are still enumerable / the share data unchanged
+    match bytesOfHex fhex, bytesOfHex rechex with
+    | some f, some rec =>
+      let p := Path.fin (0, 0)
+      let fs0 : IFs := fun q => if q = p then some f else none
+      let ops := mutAddExtraLeaseOps p f rec
+      let st := (List.range (ops.length + 1)).map (fun n => Tahoe.Base.FsOp.run fs0 (ops.take n) p)
+      let rd := st.map (fun o => match o with | some g => if mutLeasesReadable g then "1" else "0" | none => "x")
+      let dt := st.map (fun o => match o with | some g => if mutData g == mutData f then "1" else "0" | none => "x")
+      "ops=" ++ ";".intercalate (ops.map showOp) ++ "|r=" ++ ",".intercalate rd ++ "|d=" ++ ",".intercalate dt
+    | _, _ => "bad-op"
   | "c29" :: ro :: reserved :: toks =>
     match (if ro == "0" then some false else if ro == "1" then some true else none), reserved.toNat?,
           splitBang [] toks with
